@@ -118,8 +118,51 @@ impl<'a> G<'a> {
                 }
             }
             F::V => {
-                let c = self.r.weighted(&[3, 3, 3, 2, 2, 1, 2, 2, 1, 1, 1, 2]);
+                let c = self.r.weighted(&[3, 3, 3, 2, 2, 1, 2, 2, 1, 1, 1, 2, 2]);
                 match c {
+                    12 => {
+                        // arithmetic with elements that are not Copy (operators, mul_add, Sum/Product, sum()/product())
+                        let mode = self.r.below(11);
+                        let keep = self.r.below(2);
+                        let extra = self.r.below(3);
+                        let mut b = (keep << 8) | if mode == 7 || mode == 8 { extra } else { 0 };
+                        let calls = match mode {
+                            7 | 8 => (1 + extra as usize) * self.n * self.w,
+                            9 | 10 => self.n.saturating_sub(1) * self.w,
+                            _ => self.n * self.w,
+                        };
+                        let mut f = 0;
+                        let mut gone = mode >= 9;
+                        if self.faulty && self.faults_left > 0 && self.r.below(16) < self.fault_p {
+                            self.faults_left -= 1;
+                            let which = if mode == 7 || mode == 8 { self.r.below(3) } else { 0 };
+                            match which {
+                                0 => {
+                                    f = self.r.range(1, calls as u32 + 2);
+                                    if (f as usize) <= calls && mode != 4 {
+                                        gone = true;
+                                    }
+                                }
+                                1 => {
+                                    f = 1000 + self.r.below((self.n * self.w) as u32 + 1);
+                                    if ((f - 1000) as usize) < self.n * self.w {
+                                        gone = true;
+                                    }
+                                }
+                                _ => {
+                                    let j = self.r.range(1, extra + 3);
+                                    b |= j << 9;
+                                    if j <= extra + 2 {
+                                        gone = true;
+                                    }
+                                }
+                            }
+                        }
+                        self.push(Op::abf(OpK::VArith, mode, b, f));
+                        if gone {
+                            self.form = F::Gone;
+                        }
+                    }
                     10 => {
                         let a = self.r.below(2);
                         let f = self.fault(self.n.saturating_sub(1));
@@ -644,7 +687,22 @@ impl<'a> G<'a> {
                         mf = MF::Flat;
                     }
                 }
-                MF::M => match self.r.weighted(&[4, 4, 2, 2, 2, 2, 2, 2, 2, 2, 1, 1]) {
+                MF::M => match self.r.weighted(&[4, 4, 2, 2, 2, 2, 2, 2, 2, 2, 1, 1, 2]) {
+                    12 => {
+                        // arithmetic and zero()/one() padded size conversions with elements that are not Copy
+                        let a = self.r.below(5);
+                        let b = (self.r.below(2) << 8) | self.r.below(2);
+                        let cbs = match a {
+                            0 | 1 | 2 => nm * nm,
+                            _ => 7,
+                        };
+                        let f = self.fault(cbs);
+                        self.push(Op::abf(OpK::MArith, a, b, f));
+                        if f > 0 && a != 2 && (f as usize) <= cbs {
+                            // the matrix is (probably) gone; the run ends here
+                            return false;
+                        }
+                    }
                     11 => {
                         // truncating conversion to a smaller matrix type; the run ends here
                         let a = self.r.below(2);
